@@ -47,7 +47,8 @@ Inductive eop :=
 Inductive aop :=
 | ASubmit (v idx : Z) (ok : bool)
 | AProcess (got : Z)
-| AEndBlock (h got : Z).   (* the consensus MODULE's EndBlock at height h; got = -4: pruned (removed, nothing applied) *)
+| AEndBlock (h got : Z)
+| ASnap (sn : list (Z * Z)) (total : Z).   (* the valset module built a new current snapshot *)   (* the consensus MODULE's EndBlock at height h; got = -4: pruned (removed, nothing applied) *)
 
 Inductive case :=
 | CMedian (s : list Z) (got : Z)
@@ -153,6 +154,7 @@ Fixpoint arun (sn : snapshot) (added : Z) (proofs : list cproof) (s : att_state)
       | Some w => won_matches proofs w got && match r with [] => true | _ => false end
       | None => (got =? -1) && arun sn added proofs s' r
       end
+  | ASnap sn' total' :: r => arun {| sn_vals := sn'; sn_total := total' |} added proofs s r
   | AEndBlock h got :: r =>
       let m := end_block ikeqb (fun t d : Z => (t, d)) added {| ms_att := s; ms_pruned := false |} sn (fun g => g) h in
       match as_won (ms_att m) with
